@@ -35,6 +35,18 @@ def K6():
     return not bad, repr(bad)
 
 
+def K12():
+    """C18: TeX ligature sequences and a few characters are written unprotected (or mapped to a different character) by the
+    encoder, so decoding does not give the text back: `pp. 1--10` -> en dash, `x^2` -> modifier circumflex, `"a"` -> ''a'' ->
+    right double quotes, U+0170/U+0171 (double acute) -> acute"""
+    bad = []
+    for t in ["pp. 1--10", "a---b", "``x''", "say \"hi\"", "x^2", "!`Hola!", "?`Que?", "Erd\u0171s", "\u0126al"]:
+        mid, back = _roundtrip(t)
+        if back != t:
+            bad.append((t, mid, back))
+    return not bad, repr(bad)
+
+
 def K7():
     """C18 (fixed by 3560bac): a converter exception with an empty message was swallowed (no MiddlewareErrorBlock)"""
     from bibtexparser.library import Library
@@ -53,7 +65,7 @@ def K7():
 if __name__ == "__main__":
     import logging
     logging.disable(logging.CRITICAL)
-    for f in (K5, K6, K7):
+    for f in (K5, K6, K7, K12):
         ok, d = f()
         print("%s %s %s" % (f.__name__, "holds" if ok else "FAILS", d))
     sys.exit(0)
